@@ -83,7 +83,8 @@ def g_eval(repo):
     g.fn('U-binop', E, 'binary_operation', spec='binary_operation_unit.spec', props=['C01', 'C02', 'C03', 'C08'])
     g.fn(None, RULES + 'eval_context.rs', 'resolve_function', spec='resolve_function.spec', stub=True)
     g.fn('U-unary-op', RULES + 'values.rs', 'is_unary', impl=r'impl CmpOperator', spec='is_unary.spec', wrap_impl='impl CmpOperator', props=['C01', 'C03'])
-    g.fn('U-gac', E, 'eval_guard_access_clause', spec='eval_guard_access_clause.spec', props=['C01', 'C02', 'C03', 'C08'], assumed_as=['clause_stub.spec'])
+    g.fn('U-gac', E, 'eval_guard_access_clause', spec='eval_guard_access_clause.spec', props=['C01', 'C02', 'C03', 'C08'],
+         assumed_as=[('clause_stub.spec', 'gac.access_clause.query.query@.len() >= 1')])
     g.fn('U-named', E, 'eval_guard_named_clause', spec='eval_guard_named_clause.spec', props=['C01', 'C02', 'C03', 'C08'], assumed_as=['clause_stub.spec'])
     g.fn('U-when', E, 'eval_when_condition_block', spec='eval_when_condition_block.spec', props=['C01', 'C02', 'C08'], assumed_as=['clause_stub.spec'])
     g.fn('U-rule', E, 'eval_rule', spec='eval_rule.spec', props=['C01', 'C02', 'C04', 'C08'])
